@@ -232,10 +232,14 @@ impl<K: CacheKey + 'static> MemoryCache<K> {
         // Sort by last accessed time (oldest first)
         candidates.sort_by_key(|(_, last_accessed)| *last_accessed);
 
+        #[cfg(feature = "verif-hooks")]
+        crate::verif_hooks::sched_point("mem.evict.snapshot");
         let to_evict = candidates.into_iter().take(count);
 
         for (key, _) in to_evict {
             if let Some((_, entry)) = self.storage.remove(&key) {
+                #[cfg(feature = "verif-hooks")]
+                crate::verif_hooks::sched_point("mem.evict.removed");
                 self.entry_count.fetch_sub(1, Ordering::Relaxed);
                 self.memory_usage
                     .fetch_sub(entry.size_bytes as u64, Ordering::Relaxed);
@@ -255,10 +259,14 @@ impl<K: CacheKey + 'static> MemoryCache<K> {
         // Sort by access count (least accessed first)
         candidates.sort_by_key(|(_, access_count)| *access_count);
 
+        #[cfg(feature = "verif-hooks")]
+        crate::verif_hooks::sched_point("mem.evict.snapshot");
         let to_evict = candidates.into_iter().take(count);
 
         for (key, _) in to_evict {
             if let Some((_, entry)) = self.storage.remove(&key) {
+                #[cfg(feature = "verif-hooks")]
+                crate::verif_hooks::sched_point("mem.evict.removed");
                 self.entry_count.fetch_sub(1, Ordering::Relaxed);
                 self.memory_usage
                     .fetch_sub(entry.size_bytes as u64, Ordering::Relaxed);
@@ -278,10 +286,14 @@ impl<K: CacheKey + 'static> MemoryCache<K> {
         // Sort by creation time (oldest first)
         candidates.sort_by_key(|(_, created_at)| *created_at);
 
+        #[cfg(feature = "verif-hooks")]
+        crate::verif_hooks::sched_point("mem.evict.snapshot");
         let to_evict = candidates.into_iter().take(count);
 
         for (key, _) in to_evict {
             if let Some((_, entry)) = self.storage.remove(&key) {
+                #[cfg(feature = "verif-hooks")]
+                crate::verif_hooks::sched_point("mem.evict.removed");
                 self.entry_count.fetch_sub(1, Ordering::Relaxed);
                 self.memory_usage
                     .fetch_sub(entry.size_bytes as u64, Ordering::Relaxed);
@@ -301,10 +313,14 @@ impl<K: CacheKey + 'static> MemoryCache<K> {
             .collect();
         keys.shuffle(&mut rng());
 
+        #[cfg(feature = "verif-hooks")]
+        crate::verif_hooks::sched_point("mem.evict.snapshot");
         let to_evict = keys.into_iter().take(count);
 
         for key in to_evict {
             if let Some((_, entry)) = self.storage.remove(&key) {
+                #[cfg(feature = "verif-hooks")]
+                crate::verif_hooks::sched_point("mem.evict.removed");
                 self.entry_count.fetch_sub(1, Ordering::Relaxed);
                 self.memory_usage
                     .fetch_sub(entry.size_bytes as u64, Ordering::Relaxed);
@@ -327,8 +343,12 @@ impl<K: CacheKey + 'static> MemoryCache<K> {
             })
             .collect();
 
+        #[cfg(feature = "verif-hooks")]
+        crate::verif_hooks::sched_point("mem.evict.snapshot");
         for key in expired_keys {
             if let Some((_, entry)) = self.storage.remove(&key) {
+                #[cfg(feature = "verif-hooks")]
+                crate::verif_hooks::sched_point("mem.evict.removed");
                 self.entry_count.fetch_sub(1, Ordering::Relaxed);
                 self.memory_usage
                     .fetch_sub(entry.size_bytes as u64, Ordering::Relaxed);
@@ -376,9 +396,13 @@ impl<K: CacheKey + 'static> AsyncCache<K> for MemoryCache<K> {
                 // Need to collect info and drop the guard before removing
                 let size_bytes = entry.size_bytes;
                 drop(entry); // Drop the guard before attempting to remove
+                #[cfg(feature = "verif-hooks")]
+                crate::verif_hooks::sched_point("mem.get.expired");
 
                 // Remove expired entry
                 if self.storage.remove(key).is_some() {
+                    #[cfg(feature = "verif-hooks")]
+                    crate::verif_hooks::sched_point("mem.get.removed");
                     self.entry_count.fetch_sub(1, Ordering::Relaxed);
                     self.memory_usage
                         .fetch_sub(size_bytes as u64, Ordering::Relaxed);
@@ -416,9 +440,13 @@ impl<K: CacheKey + 'static> AsyncCache<K> for MemoryCache<K> {
         }
 
         let entry = Arc::new(MemoryCacheEntryInner::new(value, size_bytes, Some(ttl)));
+        #[cfg(feature = "verif-hooks")]
+        crate::verif_hooks::sched_point("mem.put.before_insert");
 
         // Insert or update entry
         if let Some(old_entry) = self.storage.insert(key, entry) {
+            #[cfg(feature = "verif-hooks")]
+            crate::verif_hooks::sched_point("mem.put.replaced");
             // Updating existing entry - adjust memory usage
             let old_size = old_entry.size_bytes as u64;
             let new_size = size_bytes as u64;
@@ -432,6 +460,8 @@ impl<K: CacheKey + 'static> AsyncCache<K> for MemoryCache<K> {
             }
         } else {
             // New entry
+            #[cfg(feature = "verif-hooks")]
+            crate::verif_hooks::sched_point("mem.put.inserted");
             self.entry_count.fetch_add(1, Ordering::Relaxed);
             self.memory_usage
                 .fetch_add(size_bytes as u64, Ordering::Relaxed);
@@ -447,9 +477,13 @@ impl<K: CacheKey + 'static> AsyncCache<K> for MemoryCache<K> {
                 // Need to collect info and drop the guard before removing
                 let size_bytes = entry.size_bytes;
                 drop(entry); // Drop the guard before attempting to remove
+                #[cfg(feature = "verif-hooks")]
+                crate::verif_hooks::sched_point("mem.contains.expired");
 
                 // Clean up expired entry
                 if self.storage.remove(key).is_some() {
+                    #[cfg(feature = "verif-hooks")]
+                    crate::verif_hooks::sched_point("mem.contains.removed");
                     self.entry_count.fetch_sub(1, Ordering::Relaxed);
                     self.memory_usage
                         .fetch_sub(size_bytes as u64, Ordering::Relaxed);
@@ -465,6 +499,8 @@ impl<K: CacheKey + 'static> AsyncCache<K> for MemoryCache<K> {
 
     async fn remove(&self, key: &K) -> CacheResult<bool> {
         if let Some((_, entry)) = self.storage.remove(key) {
+            #[cfg(feature = "verif-hooks")]
+            crate::verif_hooks::sched_point("mem.remove.removed");
             self.entry_count.fetch_sub(1, Ordering::Relaxed);
             self.memory_usage
                 .fetch_sub(entry.size_bytes as u64, Ordering::Relaxed);
@@ -476,6 +512,8 @@ impl<K: CacheKey + 'static> AsyncCache<K> for MemoryCache<K> {
 
     async fn clear(&self) -> CacheResult<()> {
         self.storage.clear();
+        #[cfg(feature = "verif-hooks")]
+        crate::verif_hooks::sched_point("mem.clear.cleared");
         self.entry_count.store(0, Ordering::Relaxed);
         self.memory_usage.store(0, Ordering::Relaxed);
         self.metrics.reset();
